@@ -1130,6 +1130,74 @@ theorem enc_dictE (h : Inv env f) (k t : Ty) (v : Val) (b b' : Builder) (hw : wf
           simp only [decode, Slice.prepend_isLibrary, hs, Bool.false_eq_true, ↓reduceIte, h1, h2, h3, hn, hu,
             bind, Outcome.bind, pure, Slice.prepend_nil, Bool.not_true, hkeys, hv]
 
+theorem toList_list : ∀ (l : List Val), (Val.list l).toList = l
+  | [] => rfl
+  | a :: t => by simp [Val.list, Val.toList, toList_list t]
+
+theorem dictParts_dictVal (ks vs : List Val) (h : ks.isEmpty = true → vs = []) :
+    dictParts (dictVal ks vs) = some (ks, vs) := by
+  unfold dictVal
+  by_cases he : ks.isEmpty = true
+  · rw [if_pos he]
+    have := h he
+    subst this
+    cases ks with
+    | nil => rfl
+    | cons _ _ => simp at he
+  · rw [if_neg he]
+    simp only [Val.list, dictParts, toList_list]
+
+theorem hlItems_values : ∀ (v : Val) (i : Nat) (r : List Val × List Val), hlItems i v = some r →
+    hlFromValues r.2 = some v ∧ (r.1.isEmpty = true → r.2 = [])
+  | .nil, i, r, h => by
+    simp only [hlItems] at h; cases h
+    exact ⟨rfl, fun _ => rfl⟩
+  | .cons (.cons (.cons (.cell c) .nil) (.cons (.int mode) .nil)) rest, i, r, h => by
+    simp only [hlItems] at h
+    split at h
+    · rename_i hm
+      cases hr : hlItems (i + 1) rest with
+      | none => simp [hr] at h
+      | some r0 =>
+        simp only [hr, Option.map_some, Option.some.injEq] at h
+        subst h
+        obtain ⟨ih, _⟩ := hlItems_values rest (i + 1) r0 hr
+        refine ⟨?_, fun he => by simp at he⟩
+        have hmod : mode.toNat % 2 ^ 8 = mode.toNat := Nat.mod_eq_of_lt (by omega)
+        have hlen : ¬ (natToBits 8 mode.toNat).length < 8 := by simp
+        simp only [hlFromValues, hlen, ↓reduceIte, ih, Option.map_some]
+        have : List.take 8 (natToBits 8 mode.toNat) = natToBits 8 mode.toNat := by
+          apply List.take_of_length_le; simp
+        rw [this, bitsToNat_natToBits, hmod, Int.toNat_of_nonneg hm.1]
+    · cases h
+
+
+/-- wallet.PayloadHighload: the dictionary round trip under the conversion of the message list -/
+theorem enc_highload (h : Inv env f) (v : Val) (b b' : Builder)
+    (hd : inDom env (f + 1) .highload v = true) (he : encode env (f + 1) .highload v b = .ok b') :
+    ∃ xs rs, b' = b.app xs rs ∧ RT (decode env (f + 1) .highload) (NG env .highload) v xs rs := by
+  simp only [inDom, Bool.and_eq_true, decide_eq_true_eq] at hd
+  obtain ⟨⟨hlen, _⟩, hd⟩ := hd
+  simp only [encode, if_neg (by omega : ¬ Prim.valLen v > 254)] at he
+  cases hdv : hlToDict v with
+  | none => simp [hdv] at hd
+  | some d =>
+    simp only [hdv] at hd he
+    have hwd : wfb env (.dictE (.uint 16) (.prim .any)) = true := by simp [wfb, keyWidth, Prim.wf, Prim.proved]
+    obtain ⟨xs, rs, hb, hrt⟩ := h.enc _ d b b' hwd hd he
+    refine ⟨xs, rs, hb, ?_⟩
+    intro s hs hc
+    obtain ⟨s', hs', hsame⟩ := hrt s hs (Or.inl ⟨1, rfl⟩)
+    have hsame := hsame ⟨1, rfl⟩
+    subst hsame
+    refine ⟨s', ?_, fun _ => rfl⟩
+    simp only [hlToDict] at hdv
+    obtain ⟨r, hr, hdr⟩ := Option.map_eq_some_iff.1 hdv
+    obtain ⟨hvals, hemp⟩ := hlItems_values v 0 r hr
+    subst hdr
+    simp only [decode, Slice.prepend_isLibrary, hs, Bool.false_eq_true, ↓reduceIte, hs', bind, Outcome.bind,
+      dictParts_dictVal r.1 r.2 hemp, hvals, pure]
+
 /-- `Hashmap` written into the current cell: the chunk is the content of the root of C05's tree -/
 theorem enc_dict (h : Inv env f) (k t : Ty) (v : Val) (b b' : Builder) (hw : wfb env (.dict k t) = true)
     (hd : inDom env (f + 1) (.dict k t) v = true) (he : encode env (f + 1) (.dict k t) v b = .ok b') :
@@ -1223,6 +1291,7 @@ theorem Inv.succ (hEnv : EnvWF env) (hp : ∀ p, p.proved = true → PrimOK p) (
     | prim p => exact enc_prim hp p v b b' hw hd he
     | vmStack e => simp [wfb] at hw
     | chain e => simp [wfb] at hw
+    | highload => exact enc_highload h v b b' hd he
     | dictE k t => exact enc_dictE h k t v b b' hw hd he
     | dict k t => exact enc_dict h k t v b b' hw hd he
     | encErr id => simp [encode] at he
